@@ -1203,7 +1203,7 @@ func run(c *vf.Ctx) {
 	e := &env{c: c, dir: root}
 	var wg sync.WaitGroup
 	work := make(chan func(), 256)
-	for w := 0; w < min(runtime.NumCPU(), 12); w++ {
+	for w := 0; w < min(runtime.NumCPU(), 8); w++ {
 		wg.Add(1)
 		go func() {
 			defer wg.Done()
